@@ -289,6 +289,8 @@ def _judge_content(sim, m, gdt, refpos, typ) -> None:
 
 # ------------------------------------------------------------------------------------------------ VAM
 def _vam_kind(a: dict, b: dict) -> str:
+    if not ("speed" in a and "track" in a and is_position_report(a)):
+        return "unavailable-field"        # the previous VAM carried an 'unavailable' code for speed / heading / position
     if "speed" in a and "speed" in b and abs(a["speed"] - b["speed"]) > 0.5:
         return "speed"
     if "track" in a and "track" in b and heading_diff(a["track"], b["track"]) > 4.0:
